@@ -19,7 +19,8 @@ def main():
         return
     o = D.run_unit(u)
     try:
-        for n in u.assemble().info.get('skipped_loop_annotations', []):
+        _i = u.assemble().info
+        for n in _i.get('skipped_loop_annotations', []) + _i.get('skipped_optional_extracts', []):
             print('NOTE', n)
     except Exception:
         pass
